@@ -221,11 +221,11 @@ def _sc_conds(tier, seed):
 
 
 FAMILIES = [
-    Family('law', body_law, ['law', 'param', 'backing', 'n', 'prefix'], XP + QP + RP + [('i', 'int')], _conds, timeout=dict(quick=150, thorough=300),
+    Family('law', body_law, ['law', 'param', 'backing', 'n', 'prefix'], XP + QP + RP + [('i', 'int')], _conds, timeout=dict(quick=300, thorough=300),
            desc='both sides of a law built from real code and observed identically'),
     Family('tile_shuffle', body_tile_shuffle, ['backing', 'n', 'reps'], [(f'r{i}', 'int') for i in range(9)],
            lambda tier, seed: [(b, n, r) for b in ('list', 'dict') for n in (0, 1, 2, 3) for r in (1, 2, 3) if n * r <= 9 and not (n == 0 and r > 1)],
-           timeout=dict(quick=120, thorough=600), desc='tile(r, shuffle=True) == concatenate(r one-time shuffles) under the same generator state'),
+           timeout=dict(quick=300, thorough=600), desc='tile(r, shuffle=True) == concatenate(r one-time shuffles) under the same generator state'),
     Family('slice_compose', body_slice_compose, ['backing', 'n', 'f1', 'f2'], [(f'x{i}', 'int') for i in range(4)] + [(c, 'int') for c in 'abcd'] + [('i', 'int')],
            _sc_conds, timeout=dict(quick=240, thorough=900), desc='nested slices compose like list slices'),
 ]
